@@ -30,4 +30,11 @@ def run(ctx):
     TM.pool_owner(ctx, L)
     ctx.rule("R-CTS-BORDER", "responder window bookkeeping is mutually consistent", floor=2)
     F.cts_border(ctx, L)
+    ctx.rule("R-GRANT-MIN", "grants and the announced window are min-closures over own maximum, peer limit, remaining", floor=3)
+    F.grant_min(ctx, L)
+    ctx.rule("R-WINDOW-AFFINE", "segments sent per CTS = granted count", floor=2)
+    F.window_affine(ctx, L)
+    from rules import dm14 as D
+    ctx.rule("R-FORWARD-NAMES", "ECU.send_pgn / notify forward their parameters by name", floor=2)
+    D.forward_names(ctx, classes=("ElectronicControlUnit",))
     return "structural necessary conditions of C02 decided on j1939_22.py"
